@@ -3,6 +3,7 @@ C09 — the parameters of `Gotlcp.Model.Parsers` filled from the facts the extra
 from the Go AST on every run (`Generated/Facts.lean`).  Core Lean only (linked into the oracle).
 -/
 import Gotlcp.Model.Parsers
+import Gotlcp.Model.ParsersLoop
 import Gotlcp.Generated.Facts
 
 namespace Gotlcp.Model.Parsers
@@ -25,5 +26,11 @@ def guardsD : KxGuards :=
 
 /-- `true` = dtlcp -/
 def guardsOf (dtls : Bool) : KxGuards := if dtls then guardsD else guardsT
+
+/-- limits of the stream stack as they are in the working tree -/
+def limitsT : ParsersLoop.Limits :=
+  { hdr := Facts.tlcp.recordHeaderLen, maxCiphertext := Facts.tlcp.maxCiphertext,
+    maxPlaintext := Facts.tlcp.maxPlaintext, maxHandshake := Facts.tlcp.maxHandshake,
+    maxUseless := Facts.tlcp.maxUselessRecords, refusePostHs := Facts.tlcp.hsPostHandshakeRefused }
 
 end Gotlcp.Model.Parsers
